@@ -550,43 +550,16 @@ theorem commonUnpacker_idx {v : Bytes} {c : Tlv.Common} (h : Tlv.commonUnpacker 
             simp only [Tlv.commonPacketLen, hs, ↓reduceIte, hf, Lv.CfdpLv.packetLen, List.length_cons] at hle1 ⊢
             omega
 
-/-- a decoded filestore request reports at most the declared TLV length -/
+/-- a decoded filestore request reports at most the declared TLV length (since the repair of
+    `_set_fields` — slack inside the value field is refused — exactly the declared length:
+    `Tlv.FileStoreRequestTlv.fromTlv_len_exact`) -/
 theorem fsRequest_len_le {t : Tlv.CfdpTlv} {x : Tlv.FileStoreRequestTlv}
-    (h : Tlv.FileStoreRequestTlv.fromTlv t = .ok x) : x.packetLen ≤ t.packetLen := by
-  rw [Tlv.FileStoreRequestTlv.fromTlv_eq] at h
-  split at h
-  · cases h
-  · cases hc : Tlv.commonUnpacker t.value with
-    | error e => simp [hc, bind, Except.bind] at h
-    | ok c =>
-      simp only [hc, bind, Except.bind] at h
-      obtain ⟨hi, hl⟩ := commonUnpacker_idx hc
-      rw [← Except.ok.inj h]
-      simp only [Tlv.FileStoreRequestTlv.packetLen, hl, Tlv.CfdpTlv.packetLen]
-      omega
+    (h : Tlv.FileStoreRequestTlv.fromTlv t = .ok x) : x.packetLen ≤ t.packetLen :=
+  Nat.le_of_eq (Tlv.FileStoreRequestTlv.fromTlv_len_exact h)
 
 theorem fsResponse_len_le {t : Tlv.CfdpTlv} {x : Tlv.FileStoreResponseTlv}
-    (h : Tlv.FileStoreResponseTlv.fromTlv t = .ok x) : x.packetLen ≤ t.packetLen := by
-  rw [Tlv.FileStoreResponseTlv.fromTlv_eq] at h
-  split at h
-  · cases h
-  · cases hc : Tlv.commonUnpacker t.value with
-    | error e => simp [hc, bind, Except.bind] at h
-    | ok c =>
-      simp only [hc, bind, Except.bind] at h
-      obtain ⟨hi, hl⟩ := commonUnpacker_idx hc
-      cases hst : enumOf Tlv.statusCodesNat (c.action * 16 + c.status) with
-      | error e => simp [hst] at h
-      | ok st =>
-        cases hm : Lv.CfdpLv.unpack (t.value.drop c.idx) with
-        | error e => simp [hst, hm] at h
-        | ok m =>
-          obtain ⟨_, hle, _⟩ := Lv.CfdpLv.unpack_spec _ m hm
-          simp only [hst, hm] at h
-          rw [← Except.ok.inj h]
-          simp only [List.length_drop] at hle
-          simp only [Tlv.FileStoreResponseTlv.packetLen, hl, Tlv.CfdpTlv.packetLen]
-          omega
+    (h : Tlv.FileStoreResponseTlv.fromTlv t = .ok x) : x.packetLen ≤ t.packetLen :=
+  Nat.le_of_eq (Tlv.FileStoreResponseTlv.fromTlv_len_exact h)
 
 /-- a decoder `generic TLV, then f` is local at every accepted input whose result reports the
     declared TLV length -/
